@@ -32,7 +32,7 @@ enum Kind : uint8_t {
     NEG,
     POW_EE, POW_ES, POW_SE,
     SQRT, EXP, LOG, LOG10, SIN, COS, TAN, ASIN, ACOS, ATAN, SINH, COSH, ASINH, ACOSH, ABS,
-    ATAN2_EE, ATAN2_ES,                      // atan2(scalar, Evaluation) does not compile: see compile probe in C16_main.cpp
+    ATAN2_EE, ATAN2_ES, ATAN2_SE,
     MIN_EE, MIN_ES, MIN_SE, MAX_EE, MAX_ES, MAX_SE,
     NKINDS
 };
@@ -52,7 +52,7 @@ inline const KindInfo& info(int k) {
         {"sqrt", A_U, LEAF}, {"exp", A_U, LEAF}, {"log", A_U, LEAF}, {"log10", A_U, LEAF}, {"sin", A_U, LEAF}, {"cos", A_U, LEAF},
         {"tan", A_U, LEAF}, {"asin", A_U, LEAF}, {"acos", A_U, LEAF}, {"atan", A_U, LEAF}, {"sinh", A_U, LEAF}, {"cosh", A_U, LEAF},
         {"asinh", A_U, LEAF}, {"acosh", A_U, LEAF}, {"abs", A_U, LEAF},
-        {"atan2_ee", A_EE, LEAF}, {"atan2_es", A_ES, ATAN2_EE},
+        {"atan2_ee", A_EE, LEAF}, {"atan2_es", A_ES, ATAN2_EE}, {"atan2_se", A_SE, ATAN2_EE},
         {"min_ee", A_EE, LEAF}, {"min_es", A_ES, MIN_EE}, {"min_se", A_SE, MIN_EE},
         {"max_ee", A_EE, LEAF}, {"max_es", A_ES, MAX_EE}, {"max_se", A_SE, MAX_EE},
     };
@@ -158,7 +158,8 @@ enum Skip { SK_OK = 0, SK_DOMAIN, SK_KINK, SK_ILLCOND, SK_RANGE };
 inline const char* skip_name(int s) { static const char* n[] = {"ok", "skipped_outside_domain", "skipped_on_kink", "skipped_ill_conditioned", "skipped_out_of_range"}; return n[s]; }
 // set by ref_eval when the tree contains atan2(x, y) with y == 0 exactly (x != 0):
 // inside the mathematical domain (partials -y'/x), but singular for the
-// library's formula; main keys a mismatch there separately.
+// 1/(1 + x^2/y^2)/y^2 form of the derivative (a defect found and fixed through
+// this check); main keys a mismatch there separately.
 inline bool& ref_saw_atan2_y0() { static bool f = false; return f; }
 
 constexpr double BIG = 1e60, SMALL = 1e-60;
@@ -308,7 +309,7 @@ inline Skip ref_eval(const Tree& t, int idx, int n, Dual& o) {
     case POW_EE: s = ref_pow(a, b, o); break;
     case POW_SE: s = ref_pow(a, b, o); break;                                 // constant base lifted: derivative part of the base is zero
     case POW_ES: s = ref_pow_const_exp(a, scalar_value(x.par), o); break;
-    case ATAN2_EE: case ATAN2_ES: s = ref_atan2(a, b, o); break;
+    case ATAN2_EE: case ATAN2_ES: case ATAN2_SE: s = ref_atan2(a, b, o); break;
     case MIN_EE: case MIN_ES: case MIN_SE: s = ref_minmax(true, a, b, o); break;
     case MAX_EE: case MAX_ES: case MAX_SE: s = ref_minmax(false, a, b, o); break;
     default: s = ref_unary(x.kind, a, o);
